@@ -93,9 +93,34 @@ def _(h, c, d, cabs):
         yield (n, lambda: an(entity_selection(Drawer, d)(handle=hs(name=n))), [x for x in d if x.handle.name == n], ("handle", hs))
 
 
+def deep_select_cases(h, c, d, cabs):
+    """parts selected one and two nested matches below the root are reported together with the matched element"""
+    out = []
+    cabinet, handle = entity_selection(Cabinet, cabs), select(Handle)
+    out.append(("handle-one-level-deep", lambda: an(cabinet(drawers=match(Drawer)(handle=handle(), container=match(Container)(name="C0")))), (cabinet, handle),
+                {(id(cb), id(dr.handle)) for cb in cabs for dr in cb.drawers if dr.container.name == "C0"}))
+    cabinet2, hname = entity_selection(Cabinet, cabs), select()
+    out.append(("handle-name-two-levels-deep", lambda: an(cabinet2(drawers=match(Drawer)(container=match(Container)(name="C0"), handle=match(Handle)(name=hname)))), (cabinet2, hname),
+                {(id(cb), dr.handle.name) for cb in cabs for dr in cb.drawers if dr.container.name == "C0"}))
+    return out
+
+
 for k in range(3):
     h, c, d, cabs = world(k)
     SymbolGraph()
+    for label, build, sels, want in deep_select_cases(h, c, d, cabs):
+        st, got = guarded(lambda: list(build().evaluate()))
+        rep.case((k, "deep-select", label), nontrivial=bool(want), sample={"world": k, "pattern": "deep-select", "argument": label})
+        inp = {"world": k, "pattern": "deep-select", "argument": label}
+        if st == "exc":
+            rep.fail(f"raised::deep-select::{label}", f"world {k} {label}: {type(got).__name__}: {got}", inp)
+            continue
+        if any(not isinstance(r, UnificationDict) for r in got):
+            rep.fail(f"select-shape::deep-select::{label}", f"world {k} {label}: a result is not a binding of the selected parts: {got[:2]!r}", inp)
+            continue
+        found = {tuple(r[s_] if isinstance(r[s_], str) else id(r[s_]) for s_ in sels) for r in got}
+        if found != want:
+            rep.fail(f"inconsistent-selection::deep-select::{label}", f"world {k} {label}: {len(found - want)} reported pairs are wrong, {len(want - found)} missing", inp)
     for pname, gen in PATTERNS:
         for label, build, want, sel in gen(h, c, d, cabs):
             st, got = guarded(lambda: list(build().evaluate()))
